@@ -31,6 +31,7 @@ Section Proofs.
   Notation it := (iterate (T:=R)).
   Notation eprox := (eval_prox lb ub l1).
   Notation epsih := (eval_psih psi_grad_full psi_yhat P).
+  Notation epsihx := (eval_psih_exit psi_yhat).
   Notation egradh := (eval_gradh grad_L).
   Notation lsloop := (ls_loop psi_grad_full psi_yhat grad_L lb ub l1 stop_req P).
   Notation pass_ := (pass psi_grad_full psi_yhat grad_L lb ub l1 dir_apply has_initial stop_req time_up P x_in y_in Σ errz_in ls_fuel).
@@ -341,14 +342,14 @@ Section Proofs.
     po_qub : qub_ok po_cf;
     po_gl : glrel0 po_cf;
     po_have : need_gradh P = true -> ihave po_cf = true;
-    po_final : consistent (out_final o) /\ core (out_final o) = core po_cf;
+    po_final : out_final o = (if overwrites (out_status o) (o_always P) && p_eager P then epsihx po_cf else po_cf);
     po_eps : out_eps o = eps_of po_cf;
     po_status : out_status o = stop_status_helpers (o_tol P) (out_eps o) (time_up po_cnt) (out_iterations o) (p_max_iter P)
                                                    po_np (p_max_no_progress P) (stop_req po_cnt);
     po_notbusy : out_status o <> StBusy;
     po_iter : (out_iterations o <= p_max_iter P)%nat;
     po_exit : (out_x o, out_y o, out_errz o) =
-              exit_block (out_status o) (o_always P) x_in y_in errz_in (ixh po_cf) (iyh po_cf) Σ;
+              exit_block (out_status o) (o_always P) x_in y_in errz_in (ixh po_cf) (iyh (out_final o)) Σ;
     po_log : Forall rec_ok (out_log o);
     po_chain : chain (rev (out_log o));
     po_last : hd_error (rev (out_log o)) = Some (mkCb (out_iterations o) po_cf [] (- 1) (out_eps o) (out_status o)) }.
@@ -387,15 +388,12 @@ Section Proofs.
     destruct (stop_status_helpers (o_tol P) ε (time_up c0) k (p_max_iter P) (st_np s) (p_max_no_progress P) (stop_req c0)) eqn:Est.
     2-8: match goal with |- context [exit_block ?st _ _ _ _ _ _ _] =>
            set (ow := overwrites st (o_always P));
-           set (cf := if ow && p_eager P then epsih curr else curr);
-           assert (Hcf : consistent cf /\ core cf = core curr) by
-             (subst cf; destruct (ow && p_eager P); [split; [apply epsih_cons; apply Cc|apply epsih_core, Cc]|split; [exact Cc|reflexivity]]);
-           destruct Hcf as [Hcf1 Hcf2];
-           assert (Exh : ixh cf = ixh curr /\ iyh cf = iyh curr) by (apply core_fields in Hcf2; tauto);
-           destruct Exh as [Exh Eyh]; rewrite Exh, Eyh;
-           destruct (exit_block st (o_always P) x_in y_in errz_in (ixh curr) (iyh curr) Σ) as [[xo yo] eo] eqn:Eex;
+           set (cf := if ow && p_eager P then epsihx curr else curr);
+           assert (Exh : ixh cf = ixh curr) by (subst cf; destruct (ow && p_eager P); reflexivity);
+           rewrite Exh;
+           destruct (exit_block st (o_always P) x_in y_in errz_in (ixh curr) (iyh cf) Σ) as [[xo yo] eo] eqn:Eex;
            exists curr, c0, (st_np s); constructor; cbn [out_status out_iterations out_eps out_x out_y out_errz out_final out_log];
-           [exact Cc|exact Cq|exact Cgl|exact Chave|split; [exact Hcf1|exact Hcf2]|reflexivity|now rewrite Est|discriminate|exact Hk
+           [exact Cc|exact Cq|exact Cgl|exact Chave|reflexivity|reflexivity|now rewrite Est|discriminate|exact Hk
            |now rewrite Eex
            |apply Forall_rev; constructor; [|exact Hlog];
             unfold rec_ok; cbn [r_it r_k r_status]; split; [apply Cc|split; [apply Cc|split; [exact Cgl|split; [exact Hk|intros _; split; [apply Cc|exact Cq]]]]]
@@ -693,13 +691,14 @@ Section Proofs.
     - intros E. rewrite E in po_status0. symmetry in po_status0. apply noprogress_only_above_limit in po_status0. eauto.
   Qed.
 
-  (* exit: the written-back triple is the exit block of a consistent iterate *)
+  (* exit: the written-back triple is the exit block of a consistent iterate; the multipliers written back are the ŷ output of
+     eval_ψ at the returned point (also with eager gradient evaluation, where the exit block calls eval_ψ for them) *)
   Theorem panoc_exit fuel o : panoc_ fuel = Done o ->
     exists cf : it, consistent cf /\ qub_ok cf /\ glrel0 cf /\ (need_gradh P = true -> ihave cf = true) /\
       out_eps o = eps_of cf /\
       (overwrites (out_status o) (o_always P) = true ->
          out_x o = ixh cf /\ ixh cf = vadd (ix cf) (ip cf) /\
-         out_y o = iyh cf /\ iyh cf = snd (psi_hat_of (out_x o)) /\
+         out_y o = snd (psi_yhat (out_x o)) /\
          out_errz o = match errz_in with [] => [] | _ => vdiv (vsub (out_y o) y_in) Σ end) /\
       (overwrites (out_status o) (o_always P) = false -> out_x o = x_in /\ out_y o = y_in /\ out_errz o = errz_in).
   Proof.
@@ -709,18 +708,23 @@ Section Proofs.
       pose proof (f_equal (fun t => fst (fst t)) po_exit0) as X1; pose proof (f_equal (fun t => snd (fst t)) po_exit0) as X2;
       pose proof (f_equal snd po_exit0) as X3; cbn [fst snd] in X1, X2, X3; rewrite X1, X2, X3.
     - destruct (consistent_explicit cf po_cons0) as (E1 & _ & _ & _ & E5 & _).
-      split; [reflexivity|]. split; [exact E1|]. split; [reflexivity|]. split; [rewrite <- E5; reflexivity|reflexivity].
+      split; [reflexivity|]. split; [exact E1|]. split; [|reflexivity].
+      rewrite po_final0, Ho. cbn [andb]. destruct (p_eager P) eqn:Ee.
+      + reflexivity.
+      + pose proof (f_equal snd E5) as E5'. cbn [snd] in E5'. rewrite E5'. unfold psi_hat_of. rewrite Ee. reflexivity.
     - repeat split.
   Qed.
 
-  (* the inner-solver contract of C01 (DESIGN §4): Converged under ApproxKKT *)
+  (* the inner-solver contract of C01 (DESIGN §4): Converged under ApproxKKT.  ŷ_crit is the multiplier estimate the criterion's
+     ∇ψ(x̂) was formed with: the ŷ output of eval_ψ(x̂), or with eager evaluation whatever eval_ψ_grad_ψ(x̂) left in its work_m argument
+     (in that case the gradient itself is the one returned by eval_ψ_grad_ψ unless an interrupted line search forced eval_grad_L) *)
   Theorem panoc_inner_contract fuel o : panoc_ fuel = Done o ->
     out_status o = StConverged -> p_crit P = ApproxKKT -> l1 = [] ->
     exists (x grad gradh : list R) (γ : R),
       let step := proj_grad_step lb ub γ x grad in
       out_x o = fst (fst step) /\
-      out_y o = snd (psi_hat_of (out_x o)) /\
-      is_gradh (out_x o) (out_y o) gradh /\
+      out_y o = snd (psi_yhat (out_x o)) /\
+      is_gradh (out_x o) (snd (psi_hat_of (out_x o))) gradh /\
       out_errz o = match errz_in with [] => [] | _ => vdiv (vsub (out_y o) y_in) Σ end /\
       out_eps o = vnorminf (kkt_residual γ (snd (fst step)) grad gradh) /\
       out_eps o <= eff_tol (o_tol P) /\
@@ -730,12 +734,12 @@ Section Proofs.
   Proof.
     intros Hr Hst Hcrit Hl1. destruct (panoc_exit fuel o Hr) as (cf & Hc & Hq & Hg & Hh & He & Hov & _).
     assert (Hov' : overwrites (out_status o) (o_always P) = true) by (rewrite Hst; reflexivity).
-    destruct (Hov Hov') as (O1 & O2 & O3 & O4 & O5).
+    destruct (Hov Hov') as (O1 & O2 & O3 & O5).
     destruct (consistent_explicit cf Hc) as (E1 & E2 & E3 & E4 & E5 & E6 & E7).
     exists (ix cf), (igrad cf), (igradh cf), (igam cf). cbv zeta.
     rewrite Hl1 in E2. cbn [eval_prox_grad_step] in E2. rewrite E2. cbn [fst snd].
-    split; [exact O1|]. split; [now rewrite O3|]. split.
-    { rewrite O1, O3. apply E6, Hh. unfold need_gradh. now rewrite Hcrit. }
+    split; [exact O1|]. split; [exact O3|]. split.
+    { rewrite O1. pose proof (f_equal snd E5) as E5'. cbn [snd] in E5'. rewrite <- E5'. apply E6, Hh. unfold need_gradh. now rewrite Hcrit. }
     split; [exact O5|]. split.
     { rewrite He. unfold it_eps. rewrite Hcrit. reflexivity. }
     split; [destruct (panoc_status_clauses fuel o Hr) as (_ & _ & _ & Hcv & _); apply Hcv; exact Hst|].
